@@ -166,7 +166,7 @@ def worker(ctx):
             elif c <= 8:
                 ops.append(dict(k='probe', text=t, dir=draw(st.integers(0, 7)), enc=draw(st.sampled_from([1, 2, 4])), font=draw(st.integers(-1, 2)), fv=-1))
             elif c == 9: ops.append(dict(k='destroy_seg', i=draw(st.integers(0, 5))))
-            elif c == 10: ops.append(dict(k='font', ppm=draw(st.sampled_from([10.0, 16.5, 1000.0]))))
+            elif c == 10: ops.append(dict(k='font', ppm=draw(st.sampled_from([10.0, 16.5, 1000.0, -12.0, -13.0, -17.5]))))
             elif c == 11: ops.append(dict(k='fv', tag=draw(st.sampled_from([0, 0x656E0000, 0x20202020, 0x61626320, 0x12345678]))))
             elif c == 12: ops.append(dict(k='fv_clone', i=draw(st.integers(0, 5))))
             elif c == 13: ops.append(dict(k='fv_set', i=draw(st.integers(0, 5)), f=draw(st.integers(0, 12)), v=draw(st.sampled_from([0, 1, 2, 3, 255, 65535]))))
@@ -198,13 +198,16 @@ def worker(ctx):
                 elif o['k'] == 'probe':
                     if any(tt != o['text'] and set(tt) & set(o['text']) for tt in seen_texts):
                         nt = True
-            rec.case(nontrivial_sig=json.dumps(case, sort_keys=True) if nt else None,
+            fppm = [x['ppm'] for x in case['ops'] if x['k'] == 'font']
+            hinted = lambda o: 0 <= o.get('font', -1) < len(fppm) and fppm[o['font']] < 0
+            hp = any(o['k'] == 'probe' and hinted(o) and any(q['k'] in ('seg', 'probe') and q.get('font') == o['font'] for q in case['ops'][:i]) for i, o in enumerate(case['ops']))
+            rec.case(hinted_font_probe_after_use=hp, nontrivial_sig=json.dumps(case, sort_keys=True) if nt else None,
                      sample=dict(font=case.get('font', 'synthesised'), opts=case['opts'], ops=[(o['k'], o.get('text')) for o in case['ops'][:10]]) if nt else None,
                      probes=nprobe, preloaded=case['opts'] & 2 > 0, cached_cmap=case['opts'] & 4 > 0, shipped=case['kind'] == 'shipped', with_justify=any(o['k'] == 'justify' for o in case['ops']),
                      with_fv_set=any(o['k'] == 'fv_set' for o in case['ops']), kept_segments=any(o['k'] == 'seg' and o.get('keep') for o in case['ops']))
         return t
 
-    ctx.run_hypothesis(make, ctx.n(2400, 150000) // ctx.nworkers + 1, chunk=15, replay_fn=replay_case)
+    ctx.run_hypothesis(make, ctx.n(6000, 150000) // ctx.nworkers + 1, chunk=15, replay_fn=replay_case)
     try:
         drv.stop()
     except DriverCrash as e:
